@@ -90,6 +90,13 @@ def _gen_cases(tier, seed):
                         for sub in itertools.combinations(range(R), k):
                             yield C(w="extract", shape=list(shp), R=R, wk="mixed", zerocol=False, idx=list(sub), form="array")
                     yield C(w="extract", shape=list(shp), R=R, wk="mixed", zerocol=False, idx=[int(rng.integers(0, R))], form="int")
+                    # component lists in any order, of every length up to R (a full-length list is a permutation), with a repeat
+                    for _ in range(3):
+                        k_ = int(rng.integers(1, R + 1))
+                        yield C(w="extract", shape=list(shp), R=R, wk="mixed", zerocol=False, idx=[int(x) for x in rng.permutation(R)[:k_]], form="array")
+                    if R >= 2:
+                        yield C(w="extract", shape=list(shp), R=R, wk="mixed", zerocol=False, idx=[int(x) for x in rng.permutation(R)], form="array")
+                        yield C(w="extract", shape=list(shp), R=R, wk="mixed", zerocol=False, idx=[int(x) for x in rng.integers(0, R, size=R)], form="array")
                     yield C(w="extract", shape=list(shp), R=R, wk="mixed", zerocol=False, idx=list(range(R)), form="none")
                     # fixsigns against a reference: every per-mode sign pattern for every component
                     for comp in range(R):
@@ -436,4 +443,8 @@ def run_case(case, ctx):
         Obefore = denote(O)
         ctx.must("ktensor.fixsigns", K.fixsigns, O)
         unchanged("ktensor.fixsigns", None, ref=True)
+        # sign fixing against a reference normalises the receiver first (whatever the reference is: also a copy of the receiver itself)
+        okn = all(abs(np.linalg.norm(f[:, r_]) - 1) < 1e-10 or np.all(f[:, r_] == 0) for f in K.factor_matrices for r_ in range(K.ncomponents))
+        ctx.check(okn and bool(np.all(K.weights >= 0)), "ktensor.fixsigns", "NORMAL-FORM", f"after fixsigns(reference): columns not unit norm or a negative weight ({K.weights})",
+                  ref=True, ref_equals_receiver=bool(nneg == 0 and rc == "same"))
         ctx.check(close(denote(O), Obefore, scale=scale, tol=TOL), "ktensor.fixsigns", "CHANGED-TENSOR", "reference tensor changed", ref=True, which="other")
